@@ -87,13 +87,16 @@ def verifyTransactionFee (P : Prims) (outs : List Out) (fee burn : Nat) : Res Un
   | .err e => .err e
   | .ok hours => P.verifyFee hours fee burn
 
-/-- `TransactionIsLocked`: `LockedAddresses()` (panics when InitialUnlockedCount exceeds the number
-of addresses) is `Addresses[InitialUnlockedCount:]` -/
-def isLocked (d : Dist) (ins : List In) : Res Bool :=
-  if d.n < d.unlocked then .panic "numLocked"
-  else .ok (ins.any fun i => match i.addr with
+/-- whether any input is owned by a still-locked distribution address (`Addresses[InitialUnlockedCount:]`) -/
+def spendsLocked (d : Dist) (ins : List In) : Bool :=
+  ins.any fun i => match i.addr with
     | some k => d.unlocked ≤ k && k < d.n
-    | none => false)
+    | none => false
+
+/-- `TransactionIsLocked`: `LockedAddresses()` panics when InitialUnlockedCount exceeds the number
+of addresses -/
+def isLocked (d : Dist) (ins : List In) : Res Bool :=
+  if d.n < d.unlocked then .panic "numLocked" else .ok (spendsLocked d ins)
 
 def precisionAll (P : Prims) (prec : Nat) : List Out → Res Unit
   | [] => .ok ()
